@@ -92,6 +92,14 @@ def make_plan(seed: int, tier: str, index: int) -> dict[str, Any]:
     s = rng.stream(seed, "sched")
     doc = gen.gen_doc(g, max_tracks=3, small=g.random() < 0.6)
     doc["unknown"] = []
+    if index % 100 == 41:
+        # an [Events] section of several thousand lines, mostly plain text events (counters,
+        # periodic re-tuning and other thresholds that a handful of lines never reach)
+        t0 = doc["events"][-1][0] if doc["events"] else 0
+        for i in range(g.choice([4300, 5200, 9000])):
+            t0 += g.choice([0, 1, 3])
+            k = g.choice(["text", "text", "text", "lyric", "section"])
+            doc["events"].append([t0, k, g.choice(["phrase_start", "phrase_end", "la", "verse 2", "x"])])
     secs = gen.sections(doc)
     names = [sec[0] for sec in secs]
     weights = [("Song", 1)] + [("SyncTrack", 4), ("Events", 4)] + [(n, 5) for n in names[3:]]
@@ -105,7 +113,7 @@ def make_plan(seed: int, tier: str, index: int) -> dict[str, Any]:
         tmpl = f.choice(STRICT[fam] if strict else RELATIVE[fam])
         line = tmpl.replace("{t}", str(f.choice([0, 1, 50, 192, 99999])))
         flood = f.random() < 0.04
-        for _m in range(f.choice([1, 1, 1, 2, 3]) if not flood else f.choice([101, 128, 257, 300])):
+        for _m in range(f.choice([1, 1, 1, 2, 3]) if not flood else f.choice([101, 128, 257, 300, 1100, 3100])):
             junk.append({"line": line, "strict": strict})
     # A: junk inserted at random positions
     a_body = [{"line": ln, "junk": None} for ln in body]
@@ -156,9 +164,9 @@ def make_plan(seed: int, tier: str, index: int) -> dict[str, Any]:
         seen_texts.add(v["text"])
         uniq.append(v)
     variants = [v for v in uniq if v.get("like") is None or any(u["name"] == v["like"] for u in uniq)]
-    concurrent = index % 4 == 3
+    concurrent = index % 4 == 3 and index % 100 != 41 and len(junk) < 1000  # huge inputs: sequential
     log_off_first = False
-    if not concurrent and f.random() < 0.15 and len(variants) >= 2:
+    if not concurrent and index % 100 != 41 and len(junk) < 1000 and f.random() < 0.15 and len(variants) >= 2:
         # an allocation failure inside the recogniser of some line of variant A: the parse may
         # fail; if it returns, every line must still have contributed its datum or been reported
         variants.append({"name": "A!", "text": variants[1]["text"], "junk": variants[1]["junk"],
